@@ -417,6 +417,11 @@ type FuncContract struct {
 	Pure       bool // no heap writes, no allocation visible to the caller
 	NoOverflow bool
 	MayPanic   bool // callers must not rely on absence of panics
+	// PanicsIf: the function panics exactly when one of these conditions (over the entry
+	// state) holds: every panic point inside is proved to be reached only under one of them,
+	// every normal return only when none holds. At a call the condition is a panic edge of
+	// the caller: an obligation, or - under a recovering defer - a path to the exceptional exit.
+	PanicsIf []Clause
 	DeadReturns map[int]bool // return statements known to be unreachable under the assumed contracts (defensive code): no cover obligation
 	SplitReturns bool // the representation invariant is checked at each return statement separately
 	StrictPanics bool // a recovering defer gives no credit: every possible panic is an obligation (the recover only logs)
@@ -486,7 +491,7 @@ type ContractFile struct {
 }
 
 var clauseKW = map[string]bool{"immutable": true, "mapval": true, "global": true, "func": true, "spec": true, "uf": true, "lemma": true, "axiom": true,
-	"staterec": true, "props": true, "requires": true, "ensures": true, "panics": true, "modifies": true, "loop": true,
+	"staterec": true, "props": true, "requires": true, "ensures": true, "panics": true, "panicsif": true, "modifies": true, "loop": true,
 	"inline": true, "assumed": true, "pure": true, "nooverflow": true, "maypanic": true, "nopaniccheck": true, "nonilcheck": true, "nolocks": true, "strictpanics": true, "splitreturns": true, "deadreturn": true,
 	"split": true, "excuse": true, "makebound": true, "recspec": true, "induct": true, "datainv": true}
 
@@ -709,7 +714,7 @@ func parseContractFile(path, pkg string) (*ContractFile, error) {
 					return nil, err
 				}
 				cur.DataInv = append(cur.DataInv, c)
-			case "requires", "ensures", "panics", "modifies", "excuse":
+			case "requires", "ensures", "panics", "panicsif", "modifies", "excuse":
 				if kw == "modifies" {
 					cur.HasModifies = true
 					if rest == "nothing" || rest == "" {
@@ -735,6 +740,8 @@ func parseContractFile(path, pkg string) (*ContractFile, error) {
 					cur.Ensures = append(cur.Ensures, c)
 				case "panics":
 					cur.Panics = append(cur.Panics, c)
+				case "panicsif":
+					cur.PanicsIf = append(cur.PanicsIf, c)
 				case "excuse":
 					cur.Excuses = append(cur.Excuses, c)
 				}
